@@ -10,7 +10,7 @@ a list of lines that is empty is written `E`; `N` stands for Python's `None`.
 
 `I|<lines>|<raw>|<rounds>|<limit>`    raw: space-separated `code,line,col`
   → `D=<classes | -> ok=<0|1> c11=<ok|diff|exc> lex=<one letter per line> out=<done:n|limit> spec=<hash> ` ++
-    `rounds=<f0>~<h0>;<f1>~<h1>;… last=<lines>`
+    `rounds=<f0>~<h0>;<f1>~<h1>;… srounds=<same for specRound> last=<lines>`
      f_k = failures reported by run k (`code@line.col` joined by `,`, `-` if none), h_k = hash of the file
      after run k's change; `rounds` runs are made; last = the file after them; `out` = `mainLoop limit`;
      `spec` = hash of `specFinal`; `c11` = C11's `check` agrees with `visible` in every round;
@@ -97,6 +97,12 @@ def runRounds : Nat → St → Bool → List String → (St × Bool × List Stri
     let st' := addIgnoresRound st
     runRounds n st' (ok && link) (s!"{showDiags st.diags}~{hashLines st'.lines}" :: acc)
 
+def specRounds : Nat → St → List String → List String
+  | 0, _, acc => acc.reverse
+  | n + 1, st, acc =>
+    let st' := specRound st
+    specRounds n st' (s!"{showDiags (visible st.lines st.raw)}~{hashLines st'.lines}" :: acc)
+
 def handle (line : String) : String :=
   match line.splitOn "|" with
   | ["A", ls, dels, adds] =>
@@ -125,7 +131,7 @@ def handle (line : String) : String :=
           | .limitExceeded _ => "limit"
         let ok := if AddIgnoresOK st then "1" else "0"
         s!"D={d} ok={ok} c11={if link then "ok" else "diff"} lex={lexLetters ls} out={out} spec={hashLines (specFinal st)} " ++
-          s!"rounds={";".intercalate rs} last={encLines stN.lines}"
+          s!"rounds={";".intercalate rs} srounds={";".intercalate (specRounds rounds st [])} last={encLines stN.lines}"
     | _, _, _, _ => "bad-op"
   | ["R", ls, first, astLast, stmtEnd] =>
     match parseLines ls, first.toNat?, astLast.toNat?, stmtEnd.toNat? with
